@@ -15,7 +15,7 @@ _HIER = __import__("re").compile(r"(?<![\w.'])(A|B|C|D|M|R1|R2|X[1-6]|E[1-6]|Out
 
 FILES = {
     "utils.py": "class B:\n    pass\n\n\nclass U:\n    pass\n",
-    "pkg/__init__.py": "",
+    "pkg/__init__.py": "class Top:\n    pass\n",
     "pkg/utils.py": "class P:\n    pass\n\n\nclass B:\n    pass\n\n\nclass utils:\n    pass\n",
     "foo.py": "class Foo:\n    pass\n\n\nclass Baz:\n    pass\n",
     "barfoo.py": "class Qux:\n    pass\n\n\nclass Baz:\n    pass\n",
@@ -43,7 +43,7 @@ def write_fixture(d, tname):
 
 ATOM_SETS = {
     # distinct class names per import context (main stratum)
-    "main": ["int", "str", "NoneType", "uB", "uU", "puP", "fFoo", "bfQux", "Own", "OInner", "shp", "shpPart", "SIO", "txTx", "pu_utils"],
+    "main": ["int", "str", "NoneType", "uB", "uU", "puP", "fFoo", "bfQux", "Own", "OInner", "shp", "shpPart", "SIO", "txTx", "pu_utils", "pTop"],
     # same class name imported from two modules (collision stratum)
     "samename": ["int", "uB", "puB", "fBaz", "bfBaz", "NoneType"],
 }
@@ -53,6 +53,7 @@ def setup_ns(tmod):
     import _io
     import barfoo
     import foo
+    import pkg
     import pkg.utils
     import shape
     import mytyping
@@ -61,7 +62,7 @@ def setup_ns(tmod):
     ns = gt.NS
     ns.update({"uB": utils.B, "uU": utils.U, "puP": pkg.utils.P, "puB": pkg.utils.B, "fFoo": foo.Foo, "fBaz": foo.Baz, "bfQux": barfoo.Qux,
                "bfBaz": barfoo.Baz, "Own": tmod.Own, "OInner": tmod.Outer.Inner, "shp": shape.shape, "shpPart": shape.shape.Part,
-               "SIO": _io.StringIO, "txTx": mytyping.Tx, "pu_utils": pkg.utils.utils})
+               "SIO": _io.StringIO, "txTx": mytyping.Tx, "pu_utils": pkg.utils.utils, "pTop": pkg.Top})
 
 
 def gen_sig_type(rng, stratum, with_td):
@@ -281,6 +282,7 @@ PINNED = [
     {"name": "same-class-name-two-modules", "k": 0, "stratum": "samename", "spec": [("f0", {"a": "uB", "b": "puB"}, None)]},
     {"name": "module-prefix-substring", "k": 0, "spec": [("f0", {"a": "uU", "b": "puP"}, "bfQux"), ("f1", {"a": "fFoo", "b": "bfQux"}, "shpPart")]},
     {"name": "typeddict-under-defaultdict", "k": 3, "spec": [("f0", {"a": "DefaultDict[str, TD({'x': int}, {})]"}, None)]},
+    {"name": "package-and-its-submodule", "k": 0, "spec": [("f0", {"a": "pTop", "b": "puP"}, "Dict[pTop, List[puP]]"), ("f1", {"a": "puP"}, "pTop")]},
     {"name": "typeddict-yielded", "k": 3, "spec": [("g0", {"a": "int"}, None, "TD({'x': int}, {})")]},
 ]
 
